@@ -2,7 +2,8 @@
 
 Proof:  coq/Properties/C12.v (persisted run lists round-trip for every strictly ascending list; in
         the world model a restart keeps every mailbox and the C01/C02 invariants)
-Tie:    X (a) utils.compact_sequence / expand_sequence vs Model/Codec.v on generated lists;
+Tie:    X (a) utils.compact_sequence / expand_sequence vs Model/Codec.v on generated lists, and vs
+          Model/CodecText.v on the text itself (ascending, shuffled and duplicated lists; malformed texts);
           (b) restarts inserted at arbitrary points of generated histories (expunges -> sparse UIDs,
               packing, keywords, \\Noselect placeholders, renamed trees, subscriptions, empty
               mailboxes, deliveries pending at shutdown): everything a client can observe (LIST,
@@ -55,6 +56,97 @@ def codec_level(ctx):
         ctx.violation("compact_sequence/expand_sequence differ from the proved codec",
                       {"list": l, "compact_runs_from_python_text": rs, "expand_result": bk})
     ctx.extra["codec_cases"] = len(cases)
+
+
+def text_level(ctx):
+    """compact_sequence / expand_sequence against Model/CodecText.v on the TEXT itself (bytes): nothing of the codec is
+    re-implemented on the Python side any more; the model's text and key lists are compared inside Coq."""
+    from asimap.utils import compact_sequence, expand_sequence
+
+    rng = ctx.rng
+    ccases, ecases = [], []
+    # (a) lists as the server has them (ascending, positive, 1-6 digit numbers), also shuffled / with duplicates:
+    #     compact_sequence sorts, and groupby's n - index grouping must behave like the model on duplicates too
+    for k in range(500 if ctx.thorough else 140):
+        n = rng.choice([0, 1, 2, 3, 5, 8, 13, 30])
+        base = rng.choice([0, 1, 1, 7, 95, 998, 99990, 1234560])
+        pool = max(n, 1) * rng.choice([1, 2, 4])
+        l = sorted(base + x for x in rng.sample(range(0, pool + 1), min(n, pool + 1)))
+        kind = "ascending"
+        if k % 5 == 3 and l:
+            l = l + [rng.choice(l) for _ in range(rng.randint(1, 3))]
+            rng.shuffle(l)
+            kind = "shuffled with duplicates"
+        elif k % 5 == 4:
+            rng.shuffle(l)
+            kind = "shuffled"
+        text = compact_sequence(l)
+        ccases.append((l, text.encode("ascii")))
+        ecases.append(text.encode("ascii"))
+        ctx.count({"list": l, "text": text, "kind": kind}, nontrivial="-" in text and "," in text)
+    # (b) texts nobody wrote: the alphabet {0-9 , -} (where the model of int() is exact) and blank strings
+    for k in range(400 if ctx.thorough else 120):
+        if k % 10 == 0:
+            t = "".join(rng.choice(" \t\n\r\x0b\x0c\x1c\x1f") for _ in range(rng.randint(0, 4)))
+        else:
+            parts = []
+            for _ in range(rng.randint(1, 5)):
+                r = rng.random()
+                a, b = rng.randint(0, 120), rng.randint(0, 120)
+                parts.append(str(a) if r < 0.3 else f"{a}-{b}" if r < 0.6 else f"{a:03d}" if r < 0.65 else
+                             "".join(rng.choice("0123456789-") for _ in range(rng.randint(0, 5))))
+            t = ",".join(parts)
+        ecases.append(t.encode("ascii"))
+        ctx.count({"malformed_text": t}, nontrivial=True)
+    eres = []
+    for t in ecases:
+        try:
+            eres.append([int(x) for x in expand_sequence(t.decode("ascii"))])
+        except Exception:
+            eres.append(None)
+    ctx.extra["text_cases"] = {"compact": len(ccases), "expand": len(ecases), "expand_raises": sum(r is None for r in eres)}
+    t = "From Asimap Require Import Base.Res Model.CodecText.\nOpen Scope Z_scope.\n"
+    t += ("Fixpoint zl_eqb (a b : list Z) := match a, b with [], [] => true | x :: a', y :: b' => (x =? y) && zl_eqb a' b' "
+          "| _, _ => false end.\n"
+          "Definition ol_eqb (a b : option (list Z)) := match a, b with Some x, Some y => zl_eqb x y | None, None => true "
+          "| _, _ => false end.\n"
+          "Definition chkc (c : list Z * list Z) : bool := zl_eqb (compact_text (fst c)) (snd c).\n"
+          "Definition chke (c : list Z * option (list Z)) : bool := ol_eqb (expand_text (fst c)) (snd c).\n"
+          "Fixpoint bad {A} (chk : A -> bool) (i : nat) (cs : list A) := match cs with [] => [] | c :: r => "
+          "if chk c then bad chk (S i) r else i :: bad chk (S i) r end.\n")
+    t += ("Definition ccases : list (list Z * list Z) := "
+          + clist([f"({clist([cz(x) for x in l])}, {core.cbytes(tx)})" for l, tx in ccases]) + ".\n")
+    t += ("Definition ecases : list (list Z * option (list Z)) := "
+          + clist([f"({core.cbytes(tx)}, {core.copt(r, lambda r: clist([cz(x) for x in r]))})" for tx, r in zip(ecases, eres)])
+          + ".\n")
+    t += "Eval vm_compute in (bad chkc 0 ccases).\nEval vm_compute in (bad chke 0 ecases).\n"
+    out = ctx.coq.eval_cases("c12text", t)
+    vals = core.parse_coq_values(out)
+    # the theorem's conclusion on the implementation itself: what was written comes back
+    impl_fails = None
+    for l, tx in ccases:
+        if len(set(l)) != len(l):
+            continue
+        try:
+            back = [int(x) for x in expand_sequence(tx.decode("ascii"))]
+        except Exception as e:  # noqa: BLE001
+            back = f"raises {type(e).__name__}"
+        if back != sorted(l):
+            impl_fails = {"list": l, "text": tx.decode("ascii"), "back": back}
+            ctx.violation("a persisted list does not come back from its text", impl_fails)
+            break
+    # a difference between model and code with no list that fails to come back is still reported: the theorem no longer
+    # speaks about this code (Model/CodecText.v <-> utils.compact_sequence/expand_sequence)
+    for i in [int(x) for x in re.findall(r"\d+", vals[0])][:2]:
+        l, tx = ccases[i]
+        ctx.violation("compact_sequence does not write the text the proved codec writes (tie of C12_persisted_text_roundtrip)",
+                      {"list": l, "compact_sequence": tx.decode("ascii"), "correspondence": "Model/CodecText.v compact_text"},
+                      found_input=impl_fails is not None)
+    for i in [int(x) for x in re.findall(r"\d+", vals[1])][:2]:
+        ctx.violation("expand_sequence does not read a text the way the proved codec reads it (tie of C12_persisted_text_roundtrip)",
+                      {"text": ecases[i].decode("ascii"), "expand_sequence": eres[i] if eres[i] is not None else "raises",
+                       "correspondence": "Model/CodecText.v expand_text"},
+                      found_input=impl_fails is not None and i < len(ccases))
 
 
 def observe(w, sess="P"):
@@ -274,9 +366,11 @@ def run(ctx):
                             "world had a \\Noselect placeholder or more than three mailboxes (codec: a list with runs and gaps)")
     ok = ctx.prove("Properties/C12.v")
     codec_level(ctx)
+    text_level(ctx)
     restart_level(ctx)
     ctx.assume += ["\\Recent is excluded from the comparison, missing SPECIAL-USE mailboxes may be re-created (property text)",
-                   "the decimal text of the persisted lists is Python's str/int; the model works on run lists"]
+                   "the persisted text is modelled on bytes (Model/CodecText.v); int() is modelled on ASCII digit strings, the "
+                   "malformed stream stays inside the alphabet {0-9 , -} plus blank strings; the 4300-digit limit of str/int is not modelled"]
 
 
 def replay(ctx, path):
